@@ -93,6 +93,7 @@ type ExploreStats struct {
 	Executions int64
 	MaxPoints  int
 	Capped     bool
+	Diverged   bool // a replayed prefix did not fit (only with Ctx.TolerateDivergence)
 }
 
 // Explore runs body on every choice sequence whose total deviation cost is <= bound
@@ -129,7 +130,18 @@ func Explore(c *Ctx, bound int, workers int, body func(ch *Chooser)) ExploreStat
 				ch := &Chooser{prefix: prefix}
 				body(ch)
 				if ch.Diverged != "" || len(ch.trace) < len(prefix) {
-					c.Fatal("nondeterminism escaped the explorer: %s (prefix %v, trace len %d)", ch.Diverged, prefix, len(ch.trace))
+					if !c.TolerateDivergence {
+						c.Fatal("nondeterminism escaped the explorer: %s (prefix %v, trace len %d)", ch.Diverged, prefix, len(ch.trace))
+					}
+					// the harness declared that it cannot control every source of nondeterminism at
+					// this depth: stop this exploration and report it as a cap (never a verdict)
+					mu.Lock()
+					st.Diverged = true
+					stack = nil
+					active--
+					mu.Unlock()
+					cond.Broadcast()
+					continue
 				}
 				used := 0
 				for i := 0; i < len(prefix); i++ {
@@ -189,6 +201,9 @@ func Explore(c *Ctx, bound int, workers int, body func(ch *Chooser)) ExploreStat
 	}
 	if st.Capped {
 		c.Cap("deadline during choice-tree exploration")
+	}
+	if st.Diverged {
+		c.Cap("choice-tree exploration stopped: a replayed schedule prefix diverged (nondeterminism outside the explorer's control)")
 	}
 	c.Eval(st.Executions)
 	return st
